@@ -459,6 +459,9 @@ def main(harness_name, argv=None):
           "assumptions": meta.get("assumptions", []), "wall_s": round(wall, 2), "violations": len(violations)}
     os.makedirs(EVID, exist_ok=True)
     json.dump(ev, open(os.path.join(EVID, f"{prop}.json"), "w"), indent=1, default=str)
+    if not args.only:  # a per-tier copy survives later runs of the other tier (complete runs only)
+        os.makedirs(os.path.join(EVID, "by_tier"), exist_ok=True)
+        json.dump(ev, open(os.path.join(EVID, "by_tier", f"{prop}.{args.tier}.json"), "w"), indent=1, default=str)
 
     print(f"[{prop}] tier={args.tier} jobs={len(jobs)} (skipped {skipped}, crashed {crashed}) paths={agg['paths']} "
           f"unexplored={agg['unexplored']} incomplete={agg['incomplete']} aborted={aborted} obligations={agg['obligations']} "
